@@ -126,6 +126,9 @@ def _uses(n, name):
                     if (t["t"] == "interp" or (not q and t["t"] == "ident")) and t["v"] == name:
                         cnt += 1
                         deep += inner
+                        if not q and "args" not in x:
+                            # inside the raw tokens of a macro that is not parsed: cannot be substituted
+                            deep += 1000
                 if "args" in x and not q:
                     # args duplicate the tokens: already counted
                     return
